@@ -85,7 +85,7 @@ def dstep (d : DSt) (line : String) : DSt × String :=
   let g (k : String) : String := (kv ws k).getD ""
   match ws with
   | "cfg" :: _ =>
-    ({ d with cfg := ⟨g "verifyOwnParts" != "0"⟩,
+    ({ d with cfg := ⟨g "verifyOwnParts" != "0", g "guardNilLastCommit" != "0"⟩,
               l := { d.l with tornOk := (g "walTornOk" != "0"), keepsProposer := (g "stateKeepsProposer" != "0") } }, "ok")
   | "init" :: _ =>
     let powers := (g "powers").splitOn "," |>.filterMap String.toInt?
@@ -127,6 +127,7 @@ def dstep (d : DSt) (line : String) : DSt × String :=
     let (d, msgs) := drainAll d [] 200
     finish d (" ".intercalate msgs ++ " || ")
   | ["votes"] => (d, showVotes d.n)
+  | ["digest"] => finish d
   | ["proposer"] => (d, "proposer=" ++ (match proposerAddr d.n with | some a => Hex.encode a | none => "-"))
   | "restart" :: _ => finish (restartNode d (g "torn" == "1"))
   | _ => (d, "bad-op")
